@@ -795,6 +795,18 @@ class Splicer:
             for l_ in fs.loops:
                 if l_.kw == "foreach" and l_.ordinal > fe_n and id(l_) not in foreach_as_loop:
                     raise Undecided("loop anchor lost: %s foreach#%d [demotable fn=%s]" % (key, l_.ordinal, key))
+        # R22 (constructor side): `<field>: PhantomData` -> `<field>: <ghost expression>` (the phantom borrow materialised)
+        if fs.ghostinit:
+            fld_, ex_ = fs.ghostinit
+            s = [k for k in range(body_lo, body_hi) if toks[k].kind not in ("ws", "comment", "doc")]
+            done_ = False
+            for n in range(len(s) - 2):
+                if toks[s[n]].text == fld_ and toks[s[n + 1]].text == ":" and toks[s[n + 2]].text == "PhantomData":
+                    self.sub(s[n + 2], s[n + 2] + 1, ex_, "R22")
+                    g.meta["r13_r14"].append({"fn": key, "rule": "R22", "before": "%s: PhantomData" % fld_, "after": "%s: %s" % (fld_, ex_)})
+                    done_ = True
+            if not done_:
+                raise Undecided("R22: `%s: PhantomData` not found in %s [demotable fn=%s]" % (fld_, key, key))
         # R21: `RECV.as_ref()` / `RECV.as_mut()` on a bucket -> `bucket_ref(&RECV, &TBL)` / `bucket_mut(&RECV, &mut TBL)`
         #      (hb_ref / hb_mut for a raw hashbrown bucket). A bucket is a raw pointer into one table; the rule names that
         #      table (given per function in the .spec file) so that the dereference reads / writes the table's abstract
@@ -835,8 +847,13 @@ class Splicer:
                 recv_lo, hi_ = s[m], s[n + 3] + 1
                 recv = rs.text_of(toks, recv_lo, s[n - 1] + 1).strip()
                 mut_ = toks[s[n + 1]].text == "as_mut"
-                fnm_ = {"griddle": "bucket_", "hb": "hb_"}[kind_] + ("mut" if mut_ else "ref")
-                newt = "%s(&%s, &%s%s)" % (fnm_, recv, "mut " if mut_ else "", tbl_)
+                if kind_ == "ghost":
+                    if mut_:
+                        raise Undecided("R21: no ghost form of as_mut in %s [demotable fn=%s]" % (key, key))
+                    newt = "bucket_ref_g(&%s, %s)" % (recv, tbl_)
+                else:
+                    fnm_ = {"griddle": "bucket_", "hb": "hb_"}[kind_] + ("mut" if mut_ else "ref")
+                    newt = "%s(&%s, &%s%s)" % (fnm_, recv, "mut " if mut_ else "", tbl_)
                 before = rs.text_of(toks, recv_lo, hi_)
                 self.r21[(recv_lo, hi_)] = newt
                 self.sub(recv_lo, hi_, newt, "R21")
@@ -1268,6 +1285,28 @@ def process_file(sp, fspec, g):
             continue
         # struct / enum / const / type / static / trait
         if whole or wanted_keep(it):
+            for st_, fld_, ty_ in fspec.ghostfields:
+                if it.kind == "struct" and it.name == st_:
+                    # R22 (declaration side): the PhantomData field that stands for the iterator's borrow of the map gets a ghost type
+                    ss_ = [k for k in range(it.head_lo, it.hi) if toks[k].kind not in ("ws", "comment", "doc")]
+                    hit_ = False
+                    for n_ in range(len(ss_) - 2):
+                        if toks[ss_[n_]].text == fld_ and toks[ss_[n_ + 1]].text == ":" and toks[ss_[n_ + 2]].text == "PhantomData":
+                            depth_, x_ = 0, n_ + 2
+                            while True:
+                                tt_ = toks[ss_[x_]].text
+                                if tt_ in ("<", "(", "["):
+                                    depth_ += 1
+                                elif tt_ in (">", ")", "]"):
+                                    depth_ -= 1
+                                elif tt_ in (",", "}") and depth_ <= 0:
+                                    break
+                                x_ += 1
+                            sp.sub(ss_[n_ + 2], ss_[x_ - 1] + 1, ty_, "R22")
+                            hit_ = True
+                            break
+                    if not hit_:
+                        raise Undecided("R22: field %s: PhantomData<..> not found in struct %s" % (fld_, st_))
             sp.r1(it.head_lo, it.hi)
             sp.r11(it.head_lo, it.hi, add='struct' if it.kind == 'struct' else 'item')
             sp.docs_inside(it.head_lo, it.hi)
